@@ -3,6 +3,7 @@ package sym
 import (
 	"fmt"
 	"go/types"
+	"math"
 	"runtime/debug"
 	"sort"
 	"strings"
@@ -251,6 +252,14 @@ func renderObs(o Observation, v smt.ModelVal) string {
 			return fmt.Sprintf("f32:%d", v.U)
 		}
 		return fmt.Sprintf("f64:%d", v.U)
+	}
+	if o.Str == "intf32" || o.Str == "intf64" {
+		sh := uint(64 - smt.IntFW)
+		iv := int64(v.U<<sh) >> sh
+		if o.Str == "intf32" {
+			return fmt.Sprintf("f32:%d", math.Float32bits(float32(iv)))
+		}
+		return fmt.Sprintf("f64:%d", math.Float64bits(float64(iv)))
 	}
 	if o.Str == "strord" {
 		return fmt.Sprintf("%q", ordString(v.U))
